@@ -238,6 +238,17 @@ def backoff_lemma(rep, R, N):
         rep.inconc("the client's wait strategy %r could not be evaluated: %r" % (w, e))
         return
     rep.count("backoff_values_evaluated", len(vals))
+    # an outage of any length: the strategy must keep answering (no overflow) with the same capped delay
+    for big in (100, 1000, 1023, 1024, 1025, 1026, 2000, 10 ** 5, 10 ** 9):
+        try:
+            v = float(w(RS(big)))
+        except Exception as e:
+            rep.violation({"kind": "backoff"}, "the retry delay for attempt %d cannot be computed: %r (the retry loop dies after that many failed attempts)" % (big, e),
+                          {"kind": "backoff", "n": big})
+            return
+        if abs(v - vals[-1]) > 1e-9:
+            rep.violation({"kind": "backoff"}, "retry delay at attempt %d is %g s, at attempt 64 %g s: not capped" % (big, v, vals[-1]), {"kind": "backoff", "n": big})
+            return
     plateau = vals[LONG - 1]
     if any(abs(v - plateau) > 1e-9 for v in vals[LONG - 1:]):
         rep.violation({"kind": "backoff"}, "retry delay still grows after %d attempts (%g s at attempt %d, %g s at attempt 64): not capped" % (LONG, plateau, LONG, vals[-1]),
@@ -331,6 +342,14 @@ def replay_backoff(r):
         rs.attempt_number = n
         vals.append(float(w(rs)))
     bad = [i + 1 for i in range(63) if not (vals[i] > 0 and vals[i] <= vals[i + 1])] + ([64] if abs(vals[-1] - vals[LONG - 1]) > 1e-9 else [])
+    for big in (100, 1000, 1023, 1024, 1025, 1026, 2000, 10 ** 5, 10 ** 9):
+        rs = RS()
+        rs.attempt_number = big
+        try:
+            if abs(float(w(rs)) - vals[-1]) > 1e-9:
+                bad.append(big)
+        except Exception as e:
+            return True, "wait strategy raises %r for attempt %d" % (e, big)
     return bool(bad), "wait strategy values %s ... %g; offending attempts %r" % (", ".join("%g" % v for v in vals[:8]), vals[-1], bad[:4])
 
 
